@@ -26,8 +26,8 @@ def kinds_oracle(case, obs):
         return 'not-all-accepted-items-in-order (got %d of %d)' % (len(ids), len(want))
     if after != 0:
         return 'open-descriptors-after-destroy:%d' % after
-    if kind != 'console' and before > 2:
-        return 'more-than-two-descriptors:%d' % before
+    if kind != 'console' and before > (4 if 'sep' in kind else 2):
+        return 'more-than-two-descriptors-per-appender:%d' % before
     return 'ok'
 
 
@@ -58,6 +58,9 @@ def check(run):
             for pol in (['Block'] if kind in ('syncfile', 'console', 'file', 'rolling', 'rollingsep', 'syncrollingapp') else ['Block', 'Discard', 'DiscardOldest']):
                 for _ in range(1 if quick else 6):
                     kcases.append('%s %d %s %d %d 0' % (kind, lay, pol, rng.choice([0, 1, 7, 60]), rng.choice([0, 1, 5])))
+    # rolling kinds again with the events spread over three rotation boundaries (descriptors are retired and closed on the way)
+    for kind in ('rolling', 'rollingsep', 'rollingasync', 'syncrollingapp'):
+        kcases.append('%s %d Block %d %d 0 3300' % (kind, rng.randint(0, 1), rng.choice([12, 40]), rng.choice([0, 3])))
     tmp = common.scratch_dir('c05k')
     try:
         common.write_lines(tmp + '/c', kcases)
